@@ -189,8 +189,11 @@ class FormatMachine(MachineBase):
         self.check_canonical(text)
         self.count("C08", ["canon", self.FORMAT, self.abstract(s)])
         self.file_invariants(s, text, op)
-        self.durable[path] = {"expected": None if s.tainted else self.expected_loaded(s), "bytes": after, "clean": True,
+        exp_now = None if s.tainted else self.expected_loaded(s)
+        self.durable[path] = {"expected": exp_now, "bytes": after, "clean": True,
                               "kw": dict((k, op[k]) for k in ("main_variant",) if k in op)}
+        if exp_now is not None and self.order_ambiguous(exp_now):
+            self.durable[path]["lossy"] = True
         return "ok"
 
     def _dump_failed(self, s, op, path, before, verdict, why, e, mark):
@@ -417,7 +420,7 @@ class FormatMachine(MachineBase):
             raise Violation("C05", "C05.reload_of_rewritten_file_identical", "reload-differs/%s/%s" % (key, diff_key(diff)),
                             {"diff": diff, "source": d.get("source")})
         text2 = self.redump(new2, d)
-        if text2 != text1:
+        if text2 != text1 and not self.order_ambiguous(got):
             raise Violation("C05", "C05.second_write_byte_identical", "second-write-differs/%s" % key,
                             {"diff": _text_diff(text1, text2), "source": d.get("source")})
         # the node now runs on the upgraded state
@@ -432,6 +435,10 @@ class FormatMachine(MachineBase):
 
     def after_legacy_durable(self, path, got):
         pass
+
+    def order_ambiguous(self, observed):
+        """content whose serialised order the property does not define (outside its quantifier)"""
+        return False
 
     def op_corpus_load(self, op):
         """F8: a historical fixture shipped with the repository (tests/...) becomes the node's durable state."""
